@@ -33,7 +33,6 @@ from .nodes import (
     InputGroup,
     Node,
     NodeState,
-    TransientIdentity,
     Value,
     Var,
     VarValue,
@@ -58,6 +57,15 @@ def _reduced_sum(*args: Array) -> Array:
     """Computes the sum after reducing arrays to scalars."""
     reduced = (arg.sum() if hasattr(arg, "sum") else arg for arg in args)
     return sum(reduced)
+
+
+def _forward(node: Node, name: str) -> Calc:
+    """
+    Creates a :class:`.Calc` forwarding the value of a user-defined log-likelihood,
+    log-prior or log-probability node. A caching node is used (not a transient
+    one) so that the value is part of the model state.
+    """
+    return Calc(lambda x: x, node, _name=name, update_on_init=False)
 
 
 def _transform_back(var_transformed: Var) -> Calc:
@@ -171,7 +179,7 @@ class GraphBuilder:
         """Adds the model log-likelihood node with the name ``_model_log_lik``."""
 
         if self.log_lik_node:
-            self.add(TransientIdentity(self.log_lik_node, _name="_model_log_lik"))
+            self.add(_forward(self.log_lik_node, "_model_log_lik"))
             return self
 
         _, _vars = self._all_nodes_and_vars()
@@ -184,7 +192,7 @@ class GraphBuilder:
         """Adds the model log-prior node with the name ``_model_log_prior``."""
 
         if self.log_prior_node:
-            self.add(TransientIdentity(self.log_prior_node, _name="_model_log_prior"))
+            self.add(_forward(self.log_prior_node, "_model_log_prior"))
             return self
 
         _, _vars = self._all_nodes_and_vars()
@@ -199,7 +207,7 @@ class GraphBuilder:
         """Adds the model log-probability node with the name ``_model_log_prob``."""
 
         if self.log_prob_node:
-            self.add(TransientIdentity(self.log_prob_node, _name="_model_log_prob"))
+            self.add(_forward(self.log_prob_node, "_model_log_prob"))
             return self
 
         nodes, _ = self._all_nodes_and_vars()
